@@ -61,11 +61,15 @@ LAYOUTS = {
     "alternatives wrapped after the pipe": ([[A, B, Cc], [D]], "pipe-eol", False, ()),
     "wrapped inside relations": ([[PARTS[2]], [A, PARTS[1]]], "wrapped", False, ()),
     "one entry on a continuation line": ([[A]], "lead-nl", False, ()),
+    "substvar first, then entries": ([[A], [B, Cc]], "substvar-first", False, ("misc:Depends",)),
 }
 
 
 def layout_tokens(layout):
     entries, style, trailing, svars = layout
+    if style == "substvar-first":
+        sv = relspec.field_tokens([], "canonical", False, svars, sym=SYM)
+        return sv + [relspec.rt("COMMA"), relspec.ws(" ")] + relspec.field_tokens(entries, "canonical", trailing, (), sym=SYM)
     if style == "lead-nl":
         return [relspec.rt("NEWLINE"), relspec.ws(" ")] + relspec.field_tokens(entries, "canonical", trailing, svars, sym=SYM)
     if style != "pipe-eol":
